@@ -41,8 +41,12 @@ def concrete(inp):
     cands = [inp] if realrun.admissible_process(inp) else []
     for f in realrun.proc_fallback(mode, inp.get("program")):
         for A, dt, N in ((5.0, 2.0, 4), (1.0, 3.0, 6), (50.0, 5.0, 3), (0.04155, 400.0, 4), (2.0, 1.0, 12)):
-            cands.append(dict(f, kind=kind, mode=mode, basis=inp.get("basis", "weight"), program=inp.get("program"), N=N, A=A, dt=dt, m0=1.0,
-                              n_curves=inp.get("n_curves", 2), initial_permeances=inp.get("initial_permeances", False)))
+            for sel in ({}, {"P1": 0.05, "P2": 0.04, "x0": 0.6}):  # selective and weakly selective membranes
+                cands.append(dict(f, kind=kind, mode=mode, basis=inp.get("basis", "weight"), program=inp.get("program"), N=N, A=A, dt=dt, m0=1.0,
+                                  n_curves=inp.get("n_curves", 2), initial_permeances=inp.get("initial_permeances", False), **sel))
+        for N, frac in ((2, 1.6), (3, 0.9), (4, 0.45)):  # feed running out exactly in the transition into the last reported state
+            cands.append(dict(f, kind=kind, mode=mode, basis="weight", program=inp.get("program"), N=N, A=1.0, dt=frac * 12.0 / 0.3, m0=12.0, P1=0.05, P2=0.04, x0=0.7,
+                              n_curves=inp.get("n_curves", 2), initial_permeances=False))
     import warnings
     for i in cands:
         try:
